@@ -247,6 +247,17 @@ CHECKS["C29"] = dict(
     technique="SMT (z3) check of preorder axioms over comparison tables regenerated from the real cmp_expr",
     design="§4 C29", engine="E3", note=TABLE_NOTE)
 
+CHECKS["C12"] = dict(
+    level="proof",
+    text="CrossHair confirms, per counted terminal kind and over symbolic selectors of counts on both sides of the 9/10 "
+         "and 99/100 digit boundaries and of shifts, that cmp_expr(t(m), t(n)) == cmp_expr(t(m+s), t(n+s)); a z3 "
+         "digit-vector model (<= 6 digits, validated against Python) of the order of repr-compared terminals proves "
+         "invariance for equal digit counts and yields flip witnesses that are replayed on cmp_expr; nine forms are "
+         "built in fresh interpreters with all counters pre-advanced and under several PYTHONHASHSEEDs and their "
+         "signatures must coincide (the hash seed has no symbolic variable: replay matrix only).",
+    technique="CrossHair symbolic execution + z3 LIA digit-vector model of repr ordering + signature replay across processes",
+    design="§4 C12", engine="E2", note=XH_NOTE)
+
 NOT_APPLICABLE = {
     "C11": "Signature injectivity is injectivity of string renderings (repr/str, numpy array printing, float "
            "formatting) composed with sha512: CrossHair cannot confirm it, z3/cvc5 string theories answer unknown, "
